@@ -62,6 +62,7 @@ func (p *pp) Print(args ...interface{}) {
 	defer p.buf.SetMode(p.buf.GetMode())
 	np := newPrinter()
 	np.buf = p.buf
+	np.override = p.override
 	defer p.finishNested(np)
 	np.doPrint(args)
 }
@@ -70,6 +71,7 @@ func (p *pp) Printf(format string, arg ...interface{}) {
 	defer p.buf.SetMode(p.buf.GetMode())
 	np := newPrinter()
 	np.buf = p.buf
+	np.override = p.override
 	defer p.finishNested(np)
 	np.doPrintf(format, arg)
 }
@@ -82,6 +84,7 @@ func (p *pp) Printf(format string, arg ...interface{}) {
 func (p *pp) finishNested(np *pp) {
 	p.buf = np.buf
 	np.buf = buffer{}
+	np.override = noOverride
 	np.free()
 }
 
